@@ -89,11 +89,16 @@ def reverse_iter_lines(file_obj, blocksize=DEFAULT_BLOCKSIZE, preseek=True, enco
 
     empty_bytes, newline_bytes, cr_bytes = b'', b'\n', b'\r'
 
+    # the first line to be emitted is the end of the file: nothing follows it,
+    # so a trailing '\r' there is content, not half of a '\r\n' line break
+    terminated = [False]
+
     def _finish(line):
         # complete lines get here: drop the '\r' of a '\r\n' line
         # break (the '\n' is gone already), then decode if needed
-        if line[-1:] == cr_bytes:
+        if terminated[0] and line[-1:] == cr_bytes:
             line = line[:-1]
+        terminated[0] = True
         return line.decode(encoding) if encoding else line
 
     if preseek:
